@@ -720,7 +720,7 @@ func main() {
 		g.Persistent, g.Spare, g.DataGates = true, spare, false
 		add(fmt.Sprintf("rotations-during-commit/spare=%d", spare), "3 block-sized uploads, commit, 1 upload, then 3 more block-sized uploads (PopFronts of committed blocks) issued while the put loop's next commit is in flight || both syncer loops; every Release and NewBlock is checked against the last durably written state file", g, bound, rotationsDuringCommit(g, 7))
 	}
-	depth := ev.Pick(r, 5, 7)
+	depth := ev.Pick(r, 5, 6)
 	for _, hier := range []bool{false, true} {
 		g := base
 		g.Hierarchical, g.DataGates, g.RawReads = hier, false, false
